@@ -15,9 +15,21 @@ _FN = ("Model checking of the level-A specification of this operation family ove
        "and on pending views, plus TLC trace validation of seeded random cases (all dtypes, larger shapes, extremes). Right level because the property "
        "is a universally quantified functional equivalence with rich case analysis: exhaustive small scope plus an independent oracle (Python/numpy "
        "semantics transcribed into TLA+), not sampled assertions on hand-picked inputs.")
+_SM = ("Model checking of an explicit state machine (spec/abs/RaggedHeap.tla): level A is a heap of array values with aliasing only through a[...] / a[()]; "
+       "level M adds shared buffers, pending views and the internal Materialise step, and TLC checks that M refines A except on handles hit by the one named "
+       "deviation (ghost variable stale), plus read-purity and assignment-frame action properties. Programs are behaviours: every reachable state of the bounded "
+       "alphabet is replayed into the real code, and deeper random programs recorded from the real code are validated step by step by TLC (trace validation), "
+       "observing every live handle after every step. Right level because the property quantifies over programs / histories and over every position of an "
+       "inserted read - an interleaving quantifier that a state machine with Read as a free action expresses directly.")
 CLAIMED = {
     "C01": ("5 C01", _FN), "C02": ("5 C02", _FN), "C03": ("5 C03", _FN), "C04": ("5 C04", _FN), "C05": ("5 C05", _FN),
     "C07": ("5 C07", _FN), "C08": ("5 C08", _FN), "C09": ("5 C09", _FN),
+    "C06": ("5 C06, 3.3", _SM), "C10": ("5 C10, 3.3", _SM),
+    "C19": ("5 C19", "Model checking + conformance under both configurations: the specification has no index-width variable, so every TLC-generated case of the "
+            "C01-C09 instances and every program of the heap machine has ONE expected outcome; each is executed under ViewBase.set_dtype(int64) and (int32) in "
+            "the same process and the two projected outcomes must agree in everything the source property claims; seeded driver events are run under both "
+            "widths and the 32-bit outcomes validated by TLC. Right level because the property quantifies over configurations x the inputs of C01-C09: the "
+            "instances already enumerated for those properties are reused as the input space."),
 }
 PENDING = {}
 
